@@ -20,7 +20,20 @@
   stacks of unequal length.  That the vectorised NumPy code equals this map is the correspondence check
   (harness/props/c20.py, oracle key `stack-is-map/<callable>`).
 
-  Clause 3 (purity) — CORR-ONLY (runtime monitor in harness/props/c20.py); no theorem.
+  Clause 3 (purity) — PARTIAL PROOF on an alias abstraction + runtime monitor.  `PW.Gen.allFx`
+        (lean/PW/Gen/Effects.lean, regenerated from the source by harness/translate/c20fx.py) is every public callable
+        and every helper it reaches, abstracted into the alias language of lean/PW/Model/Effects.lean.
+        `PW.Effects.sound` (lean/PW/Lemmas/Effects.lean) proves the abstract interpreter sound for that language's
+        concrete semantics; `gen_summaries_stable` states the callee summaries used are a fixed point;
+        `gen_argument_writes` lists — from the generated programs — the only public callables the interpreter sees
+        writing through a parameter (the documented builders of CompositeTransform / CoordinateManager, attribute
+        assignment on a CoordinateManager, and the class-level validator cache of validate / deserialize), and
+        `public_callables_leave_arguments_unchanged` concludes that every other public callable leaves the memory of
+        all its arguments (and of `self`) unchanged in every execution of its abstract program.  NOT covered by the
+        theorem: that the Python source behaves like its abstract program (which expressions return views, which
+        NumPy calls work in place, loops unrolled a fixed number of times, no writes through module globals /
+        closures of other modules) — that is the translator's trusted abstraction; determinism ("calling it again
+        gives the same result") stays with the runtime monitor in harness/props/c20.py.
 
   NOT COVERED by a full shape theorem (and why):
     transform.rodrigues_vector_to_rotation_matrix, transform.cv2_rodrigues
@@ -43,6 +56,8 @@ import PW.Model.Plane
 import PW.Model.Stacked
 import PW.Lemmas.Shape
 import PW.Gen.Signatures
+import PW.Gen.Effects
+import PW.Lemmas.Effects
 import Mathlib.Data.List.Forall2
 
 set_option linter.unusedVariables false
@@ -1161,6 +1176,84 @@ theorem plane_methods_rowwise (pl : Plane K) (ps : List (V3 K)) (i : Nat) (h : i
    ⟨_, rfl, map_getElem _ ps i h⟩, ⟨_, rfl, map_getElem _ ps i h⟩⟩
 
 end plane
+
+/-! ## purity: no public callable writes through an argument (alias abstraction generated from the source) -/
+
+section effects
+open PW.Effects
+
+/-- callee summaries: six rounds from the empty table -/
+def fxTable : Table := iterate Gen.allFx 6
+
+/-- the table is a fixed point of the summary computation: every callee's summary is what its own body yields
+under the table (assume / guarantee) -/
+theorem gen_summaries_stable : round Gen.allFx fxTable = fxTable := by decide +kernel
+
+/-- the public callables through which some parameter is written, with the parameter positions -/
+def publicWrites : List (String × List Nat) :=
+  Gen.publicFx.filterMap fun p => if wOf fxTable p.2 = [] then none else some (p.1, wOf fxTable p.2)
+
+/-- Generated from the source: exactly these public callables write through a parameter — all of them through
+parameter 0 (`self` / `cls`): the step builders of CompositeTransform and their CoordinateManager twins, `tag_as`,
+attribute assignment on a CoordinateManager (whose new value, parameter 1, becomes reachable from `self`), and
+`validate` / `deserialize`, which fill the class-level validator cache.  A source edit that stores into an
+argument (`points[...] = `, `np.f(.., out=points)`, `points.sort()`, a helper that does so, a view of the argument
+that is later written) changes this list and breaks the theorem. -/
+theorem gen_argument_writes : publicWrites =
+  [("Polyline.validate", [0]), ("Polyline.deserialize", [0]), ("Plane.validate", [0]), ("Plane.deserialize", [0]),
+   ("CompositeTransform.append_transform", [0]), ("CompositeTransform.uniform_scale", [0]),
+   ("CompositeTransform.non_uniform_scale", [0]), ("CompositeTransform.convert_units", [0]),
+   ("CompositeTransform.flip", [0]), ("CompositeTransform.translate", [0]), ("CompositeTransform.reorient", [0]),
+   ("CompositeTransform.rotate", [0]), ("CoordinateManager.append_transform", [0]),
+   ("CoordinateManager.uniform_scale", [0]), ("CoordinateManager.non_uniform_scale", [0]),
+   ("CoordinateManager.convert_units", [0]), ("CoordinateManager.flip", [0]), ("CoordinateManager.translate", [0]),
+   ("CoordinateManager.reorient", [0]), ("CoordinateManager.rotate", [0]), ("CoordinateManager.tag_as", [0]),
+   ("CoordinateManager.__setattr__", [0, 1])] := by decide +kernel
+
+/-- no untranslated statement in any abstracted callable (an unreadable statement counts as writing everything, so
+this is implied by `gen_argument_writes` for public callables; stated for the helpers too) -/
+theorem gen_no_unknown_statement :
+    (Gen.allFx.all fun f => f.body.all fun st => match st with | .unknown _ => false | _ => true) = true := by
+  decide +kernel
+
+/-- **Purity, on the abstraction.**  A public callable that is not in the list of `gen_argument_writes` leaves the
+memory of every argument, and of the object it is called on, unchanged: in every execution of its abstract program
+(branches taken or not, stopping at any point, callees behaving within the summaries of `fxTable`, which
+`gen_summaries_stable` shows to be what their own bodies yield). -/
+theorem public_callables_leave_arguments_unchanged
+    (name : String) (id : Nat) (hp : (name, id) ∈ Gen.publicFx) (hn : name ∉ publicWrites.map (·.1))
+    (f : Fn) (hf : Gen.allFx[id]? = some f) (h0 : Nat → Nat) (c : CState)
+    (hex : ExecList f.nparams (wOf fxTable) (rOf fxTable) (initC f.nparams h0) f.body c) :
+    ∀ o, o < f.nparams → c.heap o = h0 o := by
+  have hw : wOf fxTable id = [] := by
+    by_contra hne
+    apply hn
+    simp only [publicWrites, List.map_filterMap, List.mem_filterMap]
+    exact ⟨(name, id), hp, by simp [hne]⟩
+  have hst := gen_summaries_stable
+  have hrow : (round Gen.allFx fxTable)[id]? = some (analyse (wOf fxTable) (rOf fxTable) f) := by
+    simp [round, List.getElem?_map, hf]
+  rw [hst] at hrow
+  have : (analyse (wOf fxTable) (rOf fxTable) f).1 = [] := by
+    have : wOf fxTable id = (analyse (wOf fxTable) (rOf fxTable) f).1 := by
+      simp [wOf, List.getD, hrow]
+    rw [← this]; exact hw
+  exact pure_of_analyse_nil _ _ f this h0 c hex
+
+/-- non-vacuity: `Plane.signed_distance` is a public callable outside the list, with a program to execute -/
+example : (Gen.publicFx.any fun p => p.1 == "Plane.signed_distance" && !(publicWrites.map (·.1)).contains p.1
+    && (Gen.allFx[p.2]?).isSome) = true := by
+  decide +kernel
+
+/-- the interpreter does see a write when there is one: `v = points; v[0] = 1` and `np.negative(d, out=view of points)` -/
+example : (analyse (fun _ => []) (fun _ => [])
+    { name := "t", nparams := 1, retVar := 9, body := [.bind true 1 (.alias [0]), .write 1 "v[0] = 1"] }).1 = [0] := by
+  decide
+example : (analyse (fun f => if f = 7 then [1] else []) (fun _ => [])
+    { name := "t", nparams := 2, retVar := 9, body := [.bind false 2 (.alias [1]), .call 7 [[], [2]]] }).1 = [1] := by
+  decide
+
+end effects
 
 /-! ## non-vacuity -/
 
